@@ -49,14 +49,16 @@ theorem Grp.delPull_foreign : (g.delPull Code.fixed x).1 = { g with pulling := f
   simp [Code.fixed, h1, h2]
 end grp
 
-theorem Grp.core_kick (g : Grp) (k : KKind) (x : Sid) : (g.kick k x).1.core = g.core := by
+theorem Grp.core_kick (code : Code) (g : Grp) (k : KKind) (x : Sid) : (g.kick code k x).1.core = g.core := by
   unfold kick
   cases k <;> dsimp only
   · split <;> rfl
   · split
     · unfold stopPull'; dsimp only; split
       · rfl
-      · split <;> rfl
+      · split
+        · rfl
+        · split <;> rfl
     · rfl
   · split <;> rfl
   · split <;> rfl
@@ -321,7 +323,7 @@ theorem pullAttach_res (s a) : (pullAttach Code.fixed s a).2 ≠ .closed := by
       · simp
       · dsimp only; split <;> split <;> simp
   · simp
-theorem stopPull_res (s a) : (stopPull s a).2 ≠ .closed := by
+theorem stopPull_res (s a) : (stopPull Code.fixed s a).2 ≠ .closed := by
   unfold stopPull; split
   · simp
   · dsimp only; split <;> simp
